@@ -304,6 +304,9 @@ namespace GeographicLib {
       ix = int(floor(x / tile_)),
       iy = int(floor(y / tile_)),
       ind = (utmp ? 2 : 0) + (northp ? 1 : 0);
+    // y / tile_ underflows to -0 for a tiny negative y, which then passes as row 0
+    // while floor(y * mult_) is -1 in Forward (negative index into digits_)
+    if (y < 0 && iy == 0) y = 0;
     if (! (ix >= mineasting_[ind] && ix < maxeasting_[ind]) ) {
       if (ix == maxeasting_[ind] && x == maxeasting_[ind] * tile_)
         x -= eps;
